@@ -1,6 +1,7 @@
 //! Correspondence harness: interprets the line protocols of /verif/lean (Model/*Script.lean)
 //! against the real sodium-rust library, in-process, and prints one observation per line.
 mod gc;
+mod node;
 
 fn main() {
     std::panic::set_hook(Box::new(|_| {}));
@@ -23,6 +24,7 @@ fn mode_dispatch(args: &[String]) -> Result<(), String> {
     match args.get(1).map(|s| s.as_str()) {
         Some("gc") => gc::run_stdin(),
         Some("gc-enum") => gc::enumerate(&args[2..]),
+        Some("node") => node::run_stdin(),
         _ => Err("usage: harness gc|gc-enum ...".into()),
     }
 }
